@@ -146,6 +146,24 @@ def run_names(out, base, cond):
         return None, q, res
 
 
+BARE_CHARS = set("abcdefghijklmnopqrstuvwxyzABCDEFGHIJKLMNOPQRSTUVWXYZ0123456789._*?%#^$[]|@")
+
+
+def bare_ok(pat):
+    """Patterns that the lexer takes as ONE text word without quotes (conservative): no blank, quote, bracket, comma,
+    comparison character or arithmetic sign inside; an optional sign in front; not a word of the language; not
+    starting with a digit after a sign (that is a number)."""
+    body = pat[1:] if pat[:1] in "+-" else pat
+    if not body or any(c not in BARE_CHARS for c in body):
+        return False
+    if pat[:1] in "+-" and (body[0].isdigit() or body[0] in "*?%."):
+        return False
+    if body[0] in "*%?" and len(body) == 1:
+        return False
+    low = body.lower()
+    return not lang.is_reserved(low)
+
+
 def has_meta(s):
     return any(c in META + RARE for c in s)
 
@@ -177,6 +195,17 @@ def check(case):
                 special = sorted({c for c in p["pat"] if c in META + RARE})
                 out.add(sig + "/" + ("over" if got - want else "under") + "-match", query=q, pattern=p["pat"],
                         extra=sorted(got - want)[:6], missing=sorted(want - got)[:6], special_chars_in_pattern=special)
+            # the same pattern written without quotes (the documentation: text needs no quotes unless it contains
+            # blanks or characters of the query language): it is the same pattern, a leading sign included
+            if bare_ok(p["pat"]):
+                bare, qb, rb = run_names(out, base, "name %s %s" % (p["op"], p["pat"]))
+                if bare is None:
+                    if not rb.wall_timeout:
+                        out.add(sig + "/bare/run-failed", query=qb, status=rb.status, stderr=rb.err[:200])
+                elif bare != got:
+                    out.add(sig + "/bare/differs-from-quoted", query=qb, pattern=p["pat"], extra=sorted(bare - got)[:6],
+                            missing=sorted(got - bare)[:6], leading=p["pat"][:1])
+                out.classes.append("bare-pattern" + ("/signed" if p["pat"][:1] in "+-" else ""))
             wild = (p["fam"] == "glob" and glob.is_glob(p["pat"])) or (p["fam"] == "like" and any(c in p["pat"] for c in "%_")) \
                 or p["fam"] == "rx"
             if (wild or any(has_meta(n) for n in names)) and 0 < len(want) < len(names):
